@@ -22,6 +22,21 @@ def run(prop, tier, seed, workdir):
     r = tlc.model_check("Sort", cfg, workdir, workers=16, dump=True)
     if r["violated"] or not r["ok"]:
         raise tlc.TLCError("Sort contract inconsistent: %s\n%s" % (r["violated"], r["out"][-1500:]))
+    # algorithm layer: the smoothsort of qsort_s transcribed (Smooth.tla); the code must sort every array, the two seeded
+    # changes of it that the unit tests pass must be rejected
+    sm_n = 8 if tier == "quick" else 10
+    sm_states = 0
+    for variant, must_hold in (("code", True), ("order2", False), ("finalheap", False)):
+        scfg = os.path.join(workdir, "smooth_%s.cfg" % variant)
+        tlc.write_cfg(scfg, spec="FairSpec" if must_hold else "Spec", constants=dict(MaxN=sm_n if must_hold else 8, Keys={0, 1, 2}, Variant=variant),
+                      invariants=["Sorted", "InHeapArea"], properties=["Decreasing", "Terminates"] if must_hold else [])
+        rs = tlc.model_check("Smooth", scfg, workdir, workers=16)
+        if must_hold and (rs["violated"] or not rs["ok"]):
+            raise tlc.TLCError("Smooth.tla: the transcribed algorithm violates %s\n%s" % (rs["violated"], rs["out"][-1500:]))
+        if not must_hold and not rs["violated"]:
+            raise tlc.TLCError("self-test: Smooth.tla does not reject the variant %s" % variant)
+        if must_hold:
+            sm_states = rs["distinct"]
     states = [s for s in tlc.parse_dump(r["dump_path"]) if s.get("op") in ("q", "b")]
     os.unlink(r["dump_path"])
     sizes = SIZES_Q if tier == "quick" else SIZES_T
@@ -102,15 +117,18 @@ def run(prop, tier, seed, workdir):
                                    cluster="%s|%s" % (op, bd["why"]), slug="sort-%d" % bd["i"], dev="",
                                    replay=dict(kind="sort", op=op, arr=arr, size=sz, key=key, place=place, why=bd["why"])))
     res.coverage = dict(
-        states=r["distinct"], transitions=r["states"], traces_validated_against_impl=total, evaluations=total,
+        states=r["distinct"] + sm_states, transitions=r["states"], traces_validated_against_impl=total, evaluations=total, algorithm_layer_states=sm_states,
         distinct_nontrivial=len({(m[0], tuple(m[1])) for m in meta.values() if len(m[1]) >= 2}),
         rule="TLC enumerates every key pattern over {0,1,2} for nmemb 0..%d (qsort_s) and every sorted pattern x searched key incl. an absent one (bsearch_s) and "
              "checks the contract operators for consistency; each pattern is executed for element sizes %s with the array flush against the trailing and the "
              "leading guard page (plus, in the quick tier, every pattern of nmemb 8 at size 4, and seeded arrays over 8 keys for every nmemb of a range of Leonardo heap shapes), the comparator recording every call whose pointers are not elements of the array or whose context is wrong; plus %d seeded "
              "random arrays up to nmemb 2000; TraceSort.tla requires a sorted permutation (by per-element tags and filler bytes), no foreign comparator "
-             "argument, no write outside nmemb*size. non-trivial = distinct patterns with nmemb >= 2" % (maxn, sizes, nbig),
+             "argument, no write outside nmemb*size. non-trivial = distinct patterns with nmemb >= 2; algorithm layer: Smooth.tla is qsort_s's smoothsort "
+             "(sift, trinkle, cycle, the bit set of Leonardo heap orders) transcribed statement by statement for element width 1: TLC runs it on every array of "
+             "up to %d keys from {0,1,2} and checks Sorted (ordered permutation), InHeapArea, Decreasing and - under weak fairness - Terminates; the two seeded "
+             "changes of the algorithm that the unit tests pass (stepson test skipped for order-2 heaps, wrong final-heap test) are shown to violate Sorted" % (maxn, sizes, nbig, sm_n),
         samples=[dict(op=meta[i][0], keys=meta[i][1][:16], size=meta[i][2]) for i in (1, len(meta) // 2, len(meta))], exhaustive=True,
-        checker_cmd="tlc Sort.tla (INVARIANTS Sound BSound); tlc TraceSort.tla")
+        checker_cmd="tlc Sort.tla (INVARIANTS Sound BSound); tlc Smooth.tla (FairSpec: Sorted InHeapArea Decreasing Terminates); tlc TraceSort.tla")
     res.assumptions = ["keys from a 3-value set exhaustively up to nmemb %d; larger arrays only by seeded sampling" % maxn,
                        "the comparator is total and consistent (the property quantifies over arrays and sizes, not over ill-behaved comparators)"]
     return res
